@@ -1,4 +1,5 @@
 import RpgpProofs.Cleartext
+import RpgpProofs.CleartextIncr
 /-!
 # C16 — cleartext signatures: text survives, framing is unspoofable, signature binds
 
@@ -341,5 +342,29 @@ example : readCleartextBody (fiveDashes ++ [66, LF, 120]) = some ([], fiveDashes
 /-- an unescaped boundary in a foreign body does end the text there -/
 example : readCleartextBody ([97, LF] ++ fiveDashes ++ [LF, 98, LF] ++ fiveDashes ++ [LF]) =
     some ([97], fiveDashes ++ [LF, 98, LF] ++ fiveDashes ++ [LF]) := by decide
+
+/-! ## the body reader as repaired (D19c) is the body reader of the model
+
+`read_cleartext_body` now looks for the line that starts the signature block in the line just read (and
+the line break in front of it) instead of the whole text read so far.  For every input this finds the
+same position, so every statement above, made through `readBodyLines`, is a statement about the code as
+it is. -/
+
+theorem d19c_repaired : Gen.fixD19cCleartextSearchLastLineOnly = 1 := by decide
+
+theorem body_reader_of_the_tree_is_the_modelled_one (inp : Bytes) :
+    readBodyLinesCur (splitInclusive inp) = readCleartextBody inp :=
+  readBodyLinesCur_eq inp
+
+/-- the loop-level statement, from any state the loop can be in: nothing found so far and the text
+read so far ends with a line break -/
+theorem incremental_search_is_the_full_search (ls : List Bytes) (out : Bytes)
+    (hout : out = [] ∨ endsLF out) (hno : findLast bodyEndPat out = none)
+    (hl : ∀ l ∈ ls.dropLast, endsLF l) :
+    readBodyLoopIncr out ls = readBodyLoop out ls :=
+  readBodyLoopIncr_eq ls out hout hno hl
+
+example : readBodyLoopIncr [] (splitInclusive [97, 10, 45, 10, 45, 45, 45, 45, 45, 66, 10, 120]) =
+    some ([97, 10, 45], [45, 45, 45, 45, 45, 66, 10], [[120]]) := by decide
 
 end Rpgp.C16
